@@ -383,14 +383,7 @@ class World:
                         with open(fhdr, "r") as sh, open(fbil, "rb") as fd:
                             g = Grid.from_stream(sh, fd)
                 else:
-                    fz = fbil.parent / "pack.zip"
-                    inner = cs.choice("inner", ["", "dir/"])
-                    with zipfile.ZipFile(str(fz), "w") as z:
-                        z.write(str(fhdr), inner + fhdr.name)
-                        z.write(str(fbil), inner + fbil.name)
-                    g = Grid.from_zip(self.path_arg(fz, "lz"),
-                                      inner + fhdr.name)
-                    os.remove(str(fz))
+                    g = self.load_zip(fhdr, fbil, key)
             except Exception as e:
                 raise Violation("load_failed", f"loading {fbil.name} ({m.dtype}"
                                 f", {m.nrows}x{m.ncols}) via {route} raised "
@@ -399,6 +392,48 @@ class World:
         self.compared = True
         self.ctx.hit("probe.load_compared")
         return g, m
+
+    def load_zip(self, fhdr, fbil, key):
+        """Pack the pair into an archive - alone, or together with other saved
+        rasters whose member names end with (or contain) the requested one -
+        and read the requested member back."""
+        from hydrodiy.gis.grid import Grid
+        cs = self.cs
+        fz = fbil.parent / "pack.zip"
+        inner = cs.choice("inner", ["", "dir/"])
+        want = [(fhdr, inner + fhdr.name), (fbil, inner + fbil.name)]
+        members = []
+        others = [k for k in sorted(self.store) if k != key]
+        if others and cs.flip("crowded", 45):
+            self.ctx.hit("fault.archive_holds_other_rasters")
+            for j, k in enumerate(others[:3]):
+                ob = Path(k)
+                oh = ob.with_suffix(".hdr")
+                style = cs.choice(f"ostyle{j}", ["longer", "deeper", "own"])
+                if style == "longer":
+                    pre = inner + f"x{j}"
+                    pair = [(oh, pre + fhdr.name), (ob, pre + fbil.name)]
+                elif style == "deeper":
+                    pre = f"old{j}/" + inner
+                    pair = [(oh, pre + fhdr.name), (ob, pre + fbil.name)]
+                else:
+                    pre = f"set{j}/"
+                    pair = [(oh, pre + oh.name), (ob, pre + ob.name)]
+                if cs.flip(f"before{j}", 60):
+                    members = pair + members
+                else:
+                    members = members + pair
+            pos = cs.draw("pos", len(members) // 2 + 1) * 2
+            members = members[:pos] + want + members[pos:]
+        else:
+            members = want
+        with zipfile.ZipFile(str(fz), "w") as z:
+            for src, arc in members:
+                z.write(str(src), arc)
+        try:
+            return Grid.from_zip(self.path_arg(fz, "lz"), inner + fhdr.name)
+        finally:
+            os.remove(str(fz))
 
     def op_load(self):
         if not self.store:
@@ -443,15 +478,27 @@ class World:
         fbil.write_bytes(raw.tobytes())
         self.log.ev("foreign", stem, dtn, order, nrows, ncols)
         self.ctx.hit("fault.foreign_byteorder_" + order)
+        route = cs.weighted("froute", [("hdr", 4), ("bil", 2), ("stream", 3),
+                                       ("zip", 3)])
         with warnings.catch_warnings():
             warnings.simplefilter("ignore")
             try:
-                g = Grid.from_header(self.path_arg(fhdr, "fh"))
+                if route == "hdr":
+                    g = Grid.from_header(self.path_arg(fhdr, "fh"))
+                elif route == "bil":
+                    g = Grid.from_header(self.path_arg(fbil, "fh"))
+                elif route == "stream":
+                    with open(fhdr, "r") as sh, open(fbil, "rb") as fd:
+                        g = Grid.from_stream(sh, fd)
+                else:
+                    g = self.load_zip(fhdr, fbil, str(fbil))
             except Exception as e:
                 raise Violation("load_failed", f"foreign {dtn} raster in byte "
-                                f"order {order} raised {e!r}", "foreign")
+                                f"order {order} via {route} raised {e!r}",
+                                "foreign")
         exact_nodata = dt.kind == "f" or abs(int(nod)) < (1 << 53)
-        check_grid(g, m, f"foreign raster {dtn} order {order}", "foreign",
+        check_grid(g, m, f"foreign raster {dtn} order {order} via {route}",
+                   "foreign",
                    nodata=exact_nodata)
         self.compared = True
         if len(self.grids) < 5:
